@@ -357,6 +357,13 @@ def run_kv(run, prop=None):
                VERIF_CONFIGS=",".join(cfgs), VERIF_SCRIPTS=str(25 if quick else 300), VERIF_STEPS=str(40 if quick else 60))
     rc, out = vlib.run_driver(binp, "TestDrive", env=env, timeout=3000)
     if "DRIVER-DONE" not in out:
+        bp = vlib.pebble_background_panic(out)
+        if bp:
+            run.violation({"kind": "pebble-background-panic", "label": prop},
+                          "a background goroutine of the store under test panicked during the workload: " + bp,
+                          replay_obj={"cmd": "python3 /verif/vcheck run %s --tier %s --seed %d" % (run.prop, run.tier, run.seed),
+                                      "output_tail": out[-4000:]})
+            return
         raise vlib.Inconclusive("dbdrv TestDrive died:\n" + out[-3000:])
     # mode A: TLC-generated behaviours
     if pp.get("gen"):
